@@ -217,6 +217,8 @@ fn truncate_post(r: &Repr, f: &Frame, new_len: usize, res: Result<(), ReserveErr
     if g.kind == K_HEAP {
         cov!(g.rc > 1 && new_len < g.len, "truncate.shared_shortens");
         obl!(f.old_block_intact(g.rc), "truncate.block_and_count_untouched", "C02,C03");
+        // count == number of handles: the count may stay only if this handle is still on the block
+        obl!((h.kind == K_HEAP && h.base == g.base) || (g.rc > 1 && f.old_block_intact(g.rc - 1)) || (g.rc == 1 && !is_live(g.base)), "truncate.count_is_number_of_handles_on_the_block", "C02,C03");
     } else {
         obl!(f.static_untouched(), "truncate.static_untouched", "C10");
     }
@@ -360,6 +362,7 @@ fn pop_contract(pre: (Repr, Ghost)) {
     if g.kind == K_HEAP {
         cov!(g.rc > 1 && g.len > 0, "pop.shared");
         obl!(f.old_block_intact(g.rc), "pop.block_and_count_untouched", "C02,C03");
+        obl!((h.kind == K_HEAP && h.base == g.base) || (g.rc > 1 && f.old_block_intact(g.rc - 1)) || (g.rc == 1 && !is_live(g.base)), "pop.count_is_number_of_handles_on_the_block", "C02,C03");
     } else {
         obl!(f.static_untouched(), "pop.static_untouched", "C10");
     }
